@@ -8,13 +8,14 @@
    exhaustion (C04_total_without_adjacent); and the ledger bound / loop termination it rests on.
    Not theorems: (a) adjacent groups and adjacent commands (the retry loop is fuelled in the model;
    its panic sites are explicit outcomes the differential run compares; one class is a known
-   finding), (b) the panic sites of console rendering and completion (compared per run; for
-   documentation generation see C04_documentation_returns below), (c) purity --
+   finding), (b) the panic sites of message rendering and completion (compared per run; for
+   documentation generation and console rendering see C04_documentation_returns and
+   C04_console_rendering_returns below), (c) purity --
    Gallina functions are pure by construction; the implementation is re-run on the same
    OptionParser and after other operations (driver modes `twice`, `history`). *)
 From Coq Require Import List Arith.
-From BpafModel Require Import Conv Wf Docs.
-From BpafLemmas Require Import Tac EvalEq Reach LoopLaws TotalLaws AbsSim AbsTotal ConvRefine ConvTotal HtmlLaws BalLaws.
+From BpafModel Require Import Conv Wf Docs Console.
+From BpafLemmas Require Import Tac EvalEq Reach LoopLaws TotalLaws AbsSim AbsTotal ConvRefine ConvTotal HtmlLaws BalLaws ConsoleLaws.
 Import ListNotations.
 
 (* `remaining <= number of items` (and the item-state vector has the length of the item list)
@@ -103,6 +104,13 @@ Theorem C04_documentation_returns :
   (exists d man, manpage_doc env app (ometa_of o) (oinfo_of o) = Some d /\ render_roff (manpage_th app) d = Some man).
 Proof. intros env app o full Ho. split; [exact (render_html_returns env app o full Ho)|exact (render_manpage_returns env app o Ho)]. Qed.
 Print Assumptions C04_documentation_returns.
+
+(* console rendering (help, version and error documents) returns for EVERY document, form and width -- true
+   after the fix: commit efdd257 (margins wider than the padding constant) *)
+Theorem C04_console_rendering_returns :
+  forall docgen full mw d, render_console docgen full mw d <> None.
+Proof. exact render_console_returns. Qed.
+Print Assumptions C04_console_rendering_returns.
 
 (* the premises are met: a definition with a subcommand, an alternative, repetition and a guard *)
 Example C04_example_oko :
